@@ -40,7 +40,11 @@ class Connection:
         "Line {} is already connected to a GFA instance".format(self))
     previous = gfa._search_duplicate(self)
     if previous:
-      if previous.virtual:
+      if previous.virtual and \
+          (previous.record_type == self.record_type or \
+           isinstance(previous, gfapy.line.Unknown)):
+        # (a placeholder stands for a line of its own type, or of any type
+        # if it was created for an identifier mentioned by a group)
         return self._substitute_virtual_line(previous)
       else:
         return self._process_not_unique(previous)
